@@ -72,12 +72,32 @@ func c07QiAgreement(maxIn, maxOut, dataKind int, first, symbolicLimits bool) {
 		deletedUtxos: map[common.Hash]struct{}{}, utxoFees: new(big.Int), qiGasScalingFactor: 1.0}
 	parent := types.EmptyWorkObject(common.ZONE_CTX)
 	parent.WorkObjectHeader().SetLocation(qiLoc)
+	// outputs already consumed by transactions included earlier in this pending block: an unrelated
+	// one, and possibly the very outputs this transaction names
+	var unrelated common.Hash
+	unrelated[0] = 0xDD
+	env.deletedUtxos[unrelated] = struct{}{}
+	var reserved []common.Hash
+	for i := 0; i < s.nIn; i++ {
+		if e := s.inEntry[i]; e != nil && vBool("input"+string(rune('0'+i))+"AlreadyConsumedInThisBlock") {
+			h := stubUTXOHash(s.ins[i].PreviousOutPoint.TxHash, s.ins[i].PreviousOutPoint.Index, e)
+			env.deletedUtxos[h] = struct{}{}
+			reserved = append(reserved, h)
+		}
+	}
 	werr := wk.processQiTx(s.tx, env, s.chain.terminus, parent, first)
 	vReach("worker-returned")
+	_, stillUnrelated := env.deletedUtxos[unrelated]
+	vAssert("worker/earlier-reservations-kept", stillUnrelated)
+	for _, h := range reserved {
+		_, still := env.deletedUtxos[h]
+		vAssert("worker/rejected-double-spend-does-not-release-the-earlier-reservation", still)
+	}
 	if werr != nil {
 		return
 	}
 	vReach("worker-included")
+	vAssert("worker/never-includes-a-spend-of-an-output-consumed-earlier-in-the-block", len(reserved) == 0)
 	// what the mempool established before the transaction could reach the worker
 	for i := 0; i < s.nIn; i++ {
 		e := s.inEntry[i]
